@@ -5,6 +5,15 @@ def native(family, shards, budget_s, **kw):
     return dict(engine="native", family=family, shards=shards, budget_ms=int(budget_s * 1000), **kw)
 
 
+def enum(family, indexes, shards=16, size="normal"):
+    """finite enumeration: indexes [0, indexes) split over shards"""
+    return dict(engine="native", family=family, shards=shards, budget_ms=10**9, index_space=indexes, size=size)
+
+
+def witness(index):
+    return dict(engine="native", family="W", shards=1, budget_ms=60000, start_list=[index], count=1, no_restart=True)
+
+
 def miri(family, seeds, count=2, rates=(0.002, 0.01, 0.05)):
     return dict(engine="miri", family=family, shards=seeds, count=count, rates=list(rates))
 
@@ -13,49 +22,95 @@ def tsan(family, shards, budget_s):
     return dict(engine="tsan", family=family, shards=shards, budget_ms=int(budget_s * 1000))
 
 
+Q = 7      # seconds per native shard, quick
+T = 45     # seconds per native shard, thorough
+MQ = 16    # miri seeds, quick
+MT = 192   # miri seeds, thorough
+
+F_BATCHES = 4 + 4 + 256     # family F: exhaustive verdict assignments for 1..3 middlewares (x2 answers)
+H_QUICK = 164               # family H: 10 440 builder sequences (length <= 3) in chunks of 64
+H_THOROUGH = 2774           # 177 482 builder sequences (length <= 4)
+
 PLAN = {
-    "C01": {"quick": [native("A", 16, 8), miri("A", 32)], "thorough": [native("A", 32, 40), miri("A", 256, count=3)]},
-    "C02": {"quick": [native("A", 16, 8), miri("A", 32)], "thorough": [native("A", 32, 40), miri("A", 256, count=3)]},
-    "C03": {"quick": [native("A", 16, 8), miri("A", 32)], "thorough": [native("A", 32, 40), miri("A", 256, count=3)]},
-    "C07": {"quick": [native("A", 16, 8), miri("A", 32)], "thorough": [native("A", 32, 40), miri("A", 256, count=3)]},
-    "C08": {"quick": [native("A", 16, 8), miri("A", 32)], "thorough": [native("A", 32, 40), miri("A", 256, count=3), tsan("A", 8, 20)]},
+    "C01": {"quick": [native("A", 12, Q), native("B", 4, Q), miri("A", MQ)], "thorough": [native("A", 24, T), native("B", 8, T), native("E", 8, T / 2), miri("A", MT), miri("B", MT // 4)]},
+    "C02": {"quick": [native("A", 12, Q), native("C", 4, Q), miri("A", MQ)], "thorough": [native("A", 24, T), native("C", 8, T), native("B", 8, T / 2), miri("A", MT), miri("C", MT // 4)]},
+    "C03": {"quick": [native("A", 12, Q), native("D", 4, Q), miri("A", MQ)], "thorough": [native("A", 24, T), native("D", 8, T), miri("A", MT), miri("D", MT // 4)]},
+    "C04": {"quick": [native("B", 16, Q), miri("B", MQ, count=3)], "thorough": [native("B", 32, T), miri("B", MT, count=3)]},
+    "C05": {"quick": [native("C", 16, Q), miri("C", MQ, count=3)], "thorough": [native("C", 32, T), miri("C", MT, count=3)]},
+    "C06": {"quick": [native("C", 16, Q), miri("C", MQ, count=3)], "thorough": [native("C", 32, T), miri("C", MT, count=3)]},
+    "C07": {"quick": [native("A", 16, Q), miri("A", MQ)], "thorough": [native("A", 32, T), miri("A", MT)]},
+    "C08": {"quick": [native("A", 14, Q), native("G", 2, Q), miri("A", MQ)], "thorough": [native("A", 24, T), native("G", 8, T), miri("A", MT), tsan("A", 8, 20)]},
+    "C09": {"quick": [witness(0), native("D", 14, Q), native("G", 2, Q), miri("D", MQ)], "thorough": [witness(0), native("D", 24, T), native("G", 8, T), miri("D", MT)]},
+    "C10": {"quick": [native("D", 16, Q), miri("D", MQ)], "thorough": [native("D", 32, T), miri("D", MT)]},
+    "C11": {"quick": [witness(1), native("E", 16, Q), miri("E", MQ)], "thorough": [witness(1), native("E", 32, T), miri("E", MT)]},
+    "C12": {"quick": [enum("F", F_BATCHES), miri("F", MQ, count=2)], "thorough": [enum("F", F_BATCHES), native("A", 8, T / 2), miri("F", MT // 2, count=2)]},
+    "C13": {"quick": [witness(2), witness(3), native("G", 16, Q), miri("G", MQ, count=3)], "thorough": [witness(2), witness(3), native("G", 32, T, size="thorough"), miri("G", MT, count=3), tsan("G", 8, 20)]},
+    "C14": {"quick": [witness(2), native("D", 16, Q), miri("D", MQ)], "thorough": [witness(2), native("D", 32, T), miri("D", MT)]},
+    "C15": {"quick": [native("B", 16, Q), miri("B", MQ, count=3)], "thorough": [native("B", 32, T), miri("B", MT, count=3)]},
+    "C16": {"quick": [enum("I", 9, shards=3), native("D", 14, Q), miri("D", MQ)], "thorough": [enum("I", 9, shards=3), native("D", 32, T), miri("D", MT), miri("I", 3, count=3)]},
+    "C17": {"quick": [enum("H", H_QUICK), miri("H", 8, count=2)], "thorough": [enum("H", H_THOROUGH + 600, size="thorough"), miri("H", 32, count=2)]},
+    "C18": {"quick": [native("A", 6, Q), native("B", 4, Q), native("C", 4, Q), native("E", 2, Q), miri("A", MQ // 2), miri("C", MQ // 2)], "thorough": [native("A", 12, T), native("B", 8, T), native("C", 8, T), native("E", 4, T), miri("A", MT // 2), miri("C", MT // 2), tsan("A", 8, 20)]},
+    "C19": {"quick": [native("K", 16, Q), miri("K", MQ)], "thorough": [native("K", 32, T), miri("K", MT)]},
 }
+
+SCHED = "distinct = distinct schedule fingerprint (hash of the merged (event kind, action, component, result) sequence of the execution)"
 
 RULES = {
     "stuck_prop": "C13",
-    # properties whose check reports a stuck scenario as a violation (others count it inconclusive)
-    "stuck_reported_by": ["C13", "C14"],
+    # a scenario that is stuck by the logical criterion is a violation of these properties when it
+    # happens in their own workloads (blocking is part of what they state); other checks count it
+    # as inconclusive and leave it to C13
+    "stuck_reported_by": ["C04", "C05", "C06", "C10", "C11", "C13", "C14", "C15", "C17"],
     "miri_report_props": {},
     "nontrivial": {
-        "C01": "scenario = seeded family-A pipeline stress (policy, capacity, 1-6 producers x 1-40 actions, 1-4 reducers with Dispatch/Keep table, middlewares, subscribers, readers, run-time registration); non-trivial iff >=2 producer threads interleaved, >=1 Keep answer and a chain of >=2 reducers; distinct = distinct schedule fingerprint (hash of the merged (kind, action, component) event sequence)",
-        "C02": "family-A scenario under any policy; non-trivial iff >=1 cross-thread pair with ret(a)<inv(b) was compared, >=2 entry points and >=2 dispatching threads; distinct by schedule fingerprint",
-        "C03": "family-A scenario; non-trivial iff >=2 producers, >=2 whole-run subscribers and a Keep action between two notifying actions; distinct by schedule fingerprint",
-        "C07": "family-A scenario; non-trivial iff >=2 producers, >=2 pipeline phases populated and >=1 run-time registration followed by a dispatch of the registering thread; distinct by schedule fingerprint",
-        "C08": "family-A scenario with reader threads and reads inside callbacks; non-trivial iff >=20 reads matched, one reader saw >=3 distinct positions and >=1 read was made inside a subscriber callback; distinct by schedule fingerprint",
+        "C01": "seeded pipeline stress (families A, B, E): policy, capacity 1-16, 1-6 producers x 1-40 actions, 1-4 reducers with a Dispatch/Keep table, middlewares, subscribers, readers, run-time registration, stop racing or after join; non-trivial iff >=2 producer threads interleaved, >=1 Keep answer and a chain of >=2 reducers; " + SCHED,
+        "C02": "families A, C, B under all three policies and five entry points; non-trivial iff >=1 cross-thread pair with ret(a)<inv(b) was compared, >=2 entry points and >=2 dispatching threads; " + SCHED,
+        "C03": "families A and D; non-trivial iff >=2 producers, >=2 whole-run subscribers and a Keep action between two notifying actions; " + SCHED,
+        "C04": "family B: 1-6 producers dispatch until Err while one thread calls stop()/close();stop()/Store::stop() with a backlog built by a gated or slow reducer, then probes every entry point; non-trivial iff >=1 dispatch overlapped the shutdown, backlog >=1 at stop.inv, and both Ok and Err results occurred; " + SCHED,
+        "C05": "family C: gated stepper reducer (exact dispatch/step programs, capacities 1-16, 1-4 producers) and ungated stalls; non-trivial iff a dispatch was open at a gated quiescent point with a full queue and later returned (or, ungated, the queue was observed full); " + SCHED,
+        "C06": "family C: burst n>capacity while the reducer is parked in a plug action, 1-4 producers, both drop policies, plus reducer-running variant; non-trivial iff >=1 discard was observed (gated: with the queue full at the quiescent point); " + SCHED,
+        "C07": "family A; non-trivial iff >=2 producers, >=2 pipeline phases populated and >=1 run-time registration followed by a dispatch of the registering thread; " + SCHED,
+        "C08": "families A and G with reader threads and reads inside subscriber/middleware callbacks; non-trivial iff >=20 reads matched, one reader saw >=3 distinct positions and >=1 read was made inside a subscriber callback; " + SCHED,
+        "C09": "families D, G (+ deterministic witness W0): direct/channeled/selector subscribers and iterators added and removed while 1-4 producers run; non-trivial iff an unsubscribe() interval overlapped a notification of another subscriber; " + SCHED,
+        "C10": "family D: subscribed()/subscribed_with() capacity 1-4 x 3 policies, direct twin registered right after, stalled (gated) drop-policy subscriber, unsubscribe/stop at random points; non-trivial iff the subscriber's channel was full at least once (discard, delivery lagging by >= capacity, or progress while stalled); " + SCHED,
+        "C11": "family E (+ witness W1): reducers return 0-4 effects per chain of all four kinds, thunks dispatching follow-ups, panicking and gated effects, middleware removing effects, client dispatch_task/thunk, stop with and without backlog; non-trivial iff >=2 effect kinds ran, >=1 follow-up was reduced and >=1 action issued >=2 effects; " + SCHED,
+        "C12": "family F: exhaustive enumeration of the verdict assignments {Continue,Done,Break,Err}^(3M) for M=1..3 middlewares x {Dispatch,Keep} (64+4096+262144 assignments x 2), one action per pair on a live store in seed-shuffled order with effect/removal variants; non-trivial = every batch (all pairs are checked against the reference model); distinct = distinct enumeration batch of 2048 pairs (conservative: see assignment_answer_pairs_executed for the pair count)",
+        "C13": "family G: 2-4 client threads running random programs over the whole public API, each ending with stop() (+ witnesses W2, W3 of the known iterator findings); non-trivial iff >=3 client threads and >=4 operation kinds; " + SCHED,
+        "C14": "family D (+ witness W2): iterator consumer on its own thread racing 1-4 producers and stop(), iterator created at a random point before stop(); non-trivial iff >=1 item was consumed while producers were still dispatching and end-of-stream was reached; " + SCHED,
+        "C15": "family B with drop(DroppableStore) as the stop operation and outstanding clones used by 1-6 threads; non-trivial as C04 plus >=1 clone used after the drop; " + SCHED,
+        "C16": "family I: exhaustive enumeration of all sequences over {0,1,2} up to length 9 fed to a real SelectorSubscriber, plus family D (subscribe_with_selector on a live store); non-trivial iff the sequence/stream contains both a repeat and a change; distinct = enumeration length class or schedule fingerprint",
+        "C17": "family H: both constructors x every sequence over 17 builder calls up to length 3 (quick, 10 440 builds) / 4 (thorough, 177 482) plus random length 5-8, each compared with the last-setting model and every Ok result probed (thread name, chain order, middleware order, queue bound, drop behaviour); distinct = enumeration chunk of 64 builds (see builds for the count)",
+        "C18": "families A, B, C, E with a sampler thread; non-trivial iff >=2 dispatching threads and at least two of {drops, vetoes, effects, rejected dispatches} occurred; " + SCHED,
+        "C19": "family K: two stores (equal or different configuration, possibly same name, shared subscriber object), interleaved clients, one stopped or dropped while the other is busy; non-trivial iff the survivor had reducer-context events or a backlog while the other was stopping; " + SCHED,
     },
-    "exhaustive": {},
+    "exhaustive": {"C12": {"quick": True, "thorough": True}, "C17": {"quick": True, "thorough": True}, "C16": {"quick": True, "thorough": True}},
     "assumptions": {
         "*": [
             "verdict covers only the executions produced by this run (generated scenarios x OS/Miri schedules); nothing is proved",
             "the harness' Relaxed logical clock orders events consistently with happens-before; scripted callbacks are deterministic functions of (action, script table)",
-            "stop() calls that took >= 2.5 s are counted inconclusive, never violations",
+            "stop() calls that took >= 2.5 s and watchdog/controller caps are counted inconclusive, never violations",
         ],
+        "C12": ["exhaustive only over the stated finite space (1..3 middlewares, one action per assignment)"],
+        "C16": ["exhaustive only over value sequences up to length 9 over a 3-value alphabet"],
+        "C17": ["exhaustive only over call sequences up to the stated length over the 17-call alphabet; sequences where without_reducer() is followed by with_reducer(s) leaving the list empty are left open"],
     },
 }
 
-LEVEL_TEXT = {}
-
-LEVEL_TEXT.update({
+LEVEL_TEXT = {
     "*": "Runtime monitoring: the real store is executed under generated hostile workloads (native shards under CPU masks, Miri seeded schedules); an offline oracle decides the property over every recorded history. Held on the executions observed, nothing more.",
-})
+    "C12": "Runtime monitoring by exhaustive enumeration of a finite input space on the real code: every verdict assignment for 1..3 middlewares is executed on a live store and compared with an executable reference model. Exhaustive over that space only.",
+    "C16": "Runtime monitoring: exhaustive enumeration of selected-value sequences (length <= 9) on the real SelectorSubscriber plus live-store streams under concurrency.",
+    "C17": "Runtime monitoring by exhaustive enumeration of builder call sequences up to a length bound on the real StoreBuilder, with behavioural probes of every built store.",
+}
 
 TECHNIQUE = {
     "*": "runtime monitoring: offline oracle over recorded event histories of the real code (native stress + Miri seeded schedules)",
+    "C05": "runtime monitoring: gated stepper reducer makes queue occupancy exact; offline oracle over event log (native + Miri)",
+    "C06": "runtime monitoring: gated bursts on the real queue; survivor-set/metric oracle over event log (native + Miri)",
+    "C12": "runtime monitoring: exhaustive input enumeration executed on the real store vs executable reference model",
+    "C13": "runtime monitoring: random API programs under a logical-criterion watchdog (no runnable thread) with gdb call sites; Miri deadlock detector",
+    "C16": "runtime monitoring: exhaustive sequence enumeration on the real SelectorSubscriber + live-store oracle",
+    "C17": "runtime monitoring: exhaustive builder-sequence enumeration with behavioural probes vs last-setting model",
 }
 
-# properties not claimed yet (kept current while the framework is being built)
-NOT_APPLICABLE = [
-    {"property_id": p, "reason": "check under construction in this session; not claimed until its monitor exists"}
-    for p in ["C04", "C05", "C06", "C09", "C10", "C11", "C12", "C13", "C14", "C15", "C16", "C17", "C18", "C19"]
-    if p not in PLAN
-]
+NOT_APPLICABLE = []
